@@ -93,9 +93,15 @@ C03_On(t, d, o) ==
 C04_On(t, d, o) ==
   (~d.lenient /\ ReadyElems(d) = {}) => o = t
 
-C02 == AtCleanReturn => C02_On(LastSrc, DL, out)
-C03 == AtCleanReturn => C03_On(LastSrc, DL, out)
-C04 == AtCleanReturn => C04_On(LastSrc, DL, out)
+\* A property that says what the result of an operation is, is violated when there is no result: the operation
+\* panicked or failed on a document of the property's space (`file` is still the source then, `op` the operation).
+NoResult == pc \in {"crashed", "failed"}
+Demanded(ops, space) == (NoResult /\ op \in ops) => ~space
+CleanDemanded == Demanded(CleanOps, ~D.lenient)
+
+C02 == (AtCleanReturn => C02_On(LastSrc, DL, out)) /\ CleanDemanded
+C03 == (AtCleanReturn => C03_On(LastSrc, DL, out)) /\ CleanDemanded
+C04 == (AtCleanReturn => C04_On(LastSrc, DL, out)) /\ Demanded(CleanOps, ~D.lenient /\ ReadyElems(D) = {})
 
 Decisions_On(t, d, o) == C02_On(t, d, o) /\ C03_On(t, d, o) /\ C04_On(t, d, o)
 
@@ -241,10 +247,11 @@ C13_On(t, d, o) ==
 C14_On(t, d, o) ==
   (~d.lenient /\ \A e \in UnwrappedElems(d) : e.alone) => Locality(t, d, o)
 
-C11 == AtCleanReturn => C11_On(LastSrc, DL, out)
-C12 == AtCleanReturn => C12_On(LastSrc, DL, out)
-C13 == AtCleanReturn => C13_On(LastSrc, DL, out)
-C14 == AtCleanReturn => C14_On(LastSrc, DL, out)
+C11 == (AtCleanReturn => C11_On(LastSrc, DL, out)) /\ Demanded(CleanOps, ~D.lenient /\ BlockStyle(D) /\ WrapperLinesClean(file, D))
+C12 == (AtCleanReturn => C12_On(LastSrc, DL, out))
+       /\ Demanded(CleanOps, ~D.lenient /\ BlockStyle(D) /\ WrapperLinesClean(file, D) /\ RegularNesting(file, D))
+C13 == (AtCleanReturn => C13_On(LastSrc, DL, out)) /\ Demanded(CleanOps, ~D.lenient /\ BlockStyle(D) /\ ~HasReadyUnwrap(D))
+C14 == (AtCleanReturn => C14_On(LastSrc, DL, out)) /\ Demanded(CleanOps, ~D.lenient /\ \A e \in UnwrappedElems(D) : e.alone)
 
 (***************************************************************************)
 (* C15 - C17 listing.                                                      *)
@@ -255,7 +262,8 @@ IsJsonOp(o) == o \in {"list_json", "list_all_json"}
 ReadyItems(its) == SelectSeq(its, LAMBDA it : it.status = "Ready")
 
 C15 ==
-  (AtListReturn /\ op \in {"list", "list_json"}) =>
+  /\ Demanded({"list", "list_json"}, ~D.lenient /\ C15Space(file, D))
+  /\ (AtListReturn /\ op \in {"list", "list_json"}) =>
    LET DD == D IN
    (~DD.lenient /\ C15Space(file, DD)) =>
      LET regs == ReadyRegions(DD) IN
@@ -272,7 +280,8 @@ C15 ==
           /\ (h.op = op /\ h.src = file /\ h.cfg = cfg) => h.out = out          \* listing is a pure function
 
 C16 ==
-  AtListReturn =>
+  /\ Demanded(ListOps, ~D.lenient /\ C16Space(file, D))
+  /\ AtListReturn =>
    LET DD == D IN
    (~DD.lenient /\ C16Space(file, DD) /\ \A i \in 1..Len(file) : file[i] # CR) =>
      LET rr == ReadyRegions(DD)
@@ -299,7 +308,8 @@ C16 ==
                     /\ \A k \in 1..Len(items) : items[k].block = h.items[k].block /\ items[k].status = h.items[k].status
 
 C17 ==
-  (AtListReturn /\ op = "list_all_json") =>
+  /\ Demanded({"list_all", "list_all_json"}, ~D.lenient /\ C15Space(file, D))
+  /\ (AtListReturn /\ op = "list_all_json") =>
    LET DD == D IN
    (~DD.lenient /\ C15Space(file, DD)) =>
      LET regs == AllRegions(DD) IN
